@@ -61,15 +61,29 @@ example (d : Gen.D) (f : Nat) (ts : List Tok) (e : Py.Exc) : pCreateTable d f ts
 example (d : Gen.D) (f : Nat) (ts : List Tok) : pLimit ts ≠ .error (.py .ValueError) := (parser_no_foreign d f).2.1.pLimit ts _ rfl
 
 /-- The one place where a foreign exception exists in the model: `int(str)` raises `ValueError` exactly on ASCII text that
-is not an integer literal (`int('x')`), and nothing else.  It does not escape: see `PM.popInt_nopy`, `PM.asInt_nopy`. -/
+is not an integer literal (`int('x')`) or is one with more than 4300 digits (`sys.get_int_max_str_digits()`), and nothing
+else.  It does not escape: see `PM.popInt_nopy`, `PM.asInt_nopy` (`as_int` catches it since the repair 26a7a5d; before it,
+`LIMIT` followed by 4301 digits escaped as `ValueError`). -/
 theorem pyInt_leaks_ValueError (s : String) (e : Py.Exc) :
-    pyInt s = .error (.py e) ↔ e = .ValueError ∧ hasNonAscii s = false ∧ isAsciiIntBody (intBody s.toList) = false := by
+    pyInt s = .error (.py e) ↔
+      e = .ValueError ∧ hasNonAscii s = false ∧
+        (isAsciiIntBody (intBody s.toList) = false ∨ 4300 < ((intBody s.toList).filter Char.isDigit).length) := by
   rw [pyInt_error]
+  simp only [tooManyDigits, decide_eq_true_eq]
   constructor
   · rintro (⟨_, h⟩ | ⟨h1, h2, h3⟩)
     · cases h
     · cases h3; exact ⟨rfl, h1, h2⟩
   · rintro ⟨rfl, h1, h2⟩; exact .inr ⟨h1, h2, rfl⟩
+
+/-- `as_int` on an integer literal (`^[+-]?\d+$`, ASCII): the integer `int()` gives, or — more than 4300 digits — the
+library's parse error -/
+theorem asInt_on_int_literal (s : String) (hna : hasNonAscii s = false) (hlit : isIntLiteral s = true) :
+    (((intBody s.toList).filter Char.isDigit).length ≤ 4300 ∧ ∃ n, asInt s = .ok n ∧ pyInt s = .ok n) ∨
+    (4300 < ((intBody s.toList).filter Char.isDigit).length ∧ asInt s = .error .parse) := by
+  rcases asInt_of_isIntLiteral s hna hlit with ⟨h, r⟩ | ⟨h, r⟩
+  · left; simp only [tooManyDigits, decide_eq_false_iff_not, Nat.not_lt] at h; exact ⟨h, r⟩
+  · right; simp only [tooManyDigits, decide_eq_true_eq] at h; exact ⟨h, r⟩
 
 /-! ## 2. lexer, and text to tree -/
 
@@ -183,5 +197,15 @@ example : (match parseStatementsText .MYSQL "SELECT 'abc".toList with | .error .
 example : (match parseStatementsText .MYSQL "SELECT a)".toList with | .error .lexical => true | _ => false) = true := by decide +kernel
 /-- an entry point that stops early reports what it left (no error) -/
 example : (match parseText "compute_expression" .MYSQL "a + 1 FROM".toList with | .ok (_, n) => n == 1 | .error _ => false) = true := by decide +kernel
+
+/-- the 4301-digit case (compiled evaluation; the kernel cannot reduce `String.contains` with a string pattern): `int()`
+refuses, `as_int` and the whole statement answer with the library's parse error; 4300 digits are accepted -/
+def digits (n : Nat) : String := String.ofList (List.replicate n '7')
+#guard (match pyInt (digits 4301) with | .error (.py .ValueError) => true | _ => false)
+#guard (match asInt (digits 4301) with | .error .parse => true | _ => false)
+#guard (match asInt (digits 4300) with | .ok _ => true | _ => false)
+#guard (match parseStatementsText .MYSQL ("SELECT a FROM t LIMIT " ++ digits 4301).toList with | .error .parse => true | _ => false)
+#guard (match parseStatementsText .MYSQL ("SELECT a FROM t LIMIT " ++ digits 4300).toList with | .ok ss => ss.length == 1 | _ => false)
+#guard (match parseStatementsText .MYSQL "SELECT a FROM t LIMIT 3".toList with | .ok ss => ss.length == 1 | _ => false)
 
 end C07
